@@ -71,7 +71,10 @@ type Opts struct {
 }
 
 func genColValue(t *rapid.T, u int) val.V {
-	switch rapid.IntRange(0, 11).Draw(t, "cvk") {
+	switch rapid.IntRange(0, 12).Draw(t, "cvk") {
+	case 9:
+		// short blobs, the empty one among them (not NULL, and not '')
+		return val.Blob(rapid.SampledFrom([][]byte{{}, {}, {0}, {0xff}, []byte("ab"), {0, 0}, []byte("a ")}).Draw(t, "cvb"))
 	case 0:
 		// payload sized around the spill thresholds
 		n := rapid.SampledFrom([]int{u - 40, u - 36, u - 35, u - 34, u, 2*u + 10, u/4 - 25, u / 4}).Draw(t, "cvlen") + rapid.IntRange(-6, 2).Draw(t, "cvd")
